@@ -79,11 +79,64 @@ theorem C14_compact_inv_weak {s s' : Lsm} {cd : CompactDef} {d n now : Nat} (h :
     (hc : CompactOk s cd) (hs : s.compact cd d n now = some s') : LsmInvW s' :=
   LL.compact_invW h hv hc hs
 
-/-- (C) the recency invariant `Layered` survives every well-formed compaction other than L0 → L0
-    (data only moves down; L0 → Lbase takes the oldest L0 tables). -/
+/-- (C) the full recency invariant `Layered` (L0 in age order) survives every well-formed compaction
+    other than L0 → L0 (data only moves down; L0 → Lbase takes the oldest L0 tables). For L0 → L0
+    see `C14_L0L0_breaks_layered` and `C14_compact_layeredX`. -/
 theorem C14_compact_layered {s s' : Lsm} {cd : CompactDef} {d n now : Nat} (h : LsmInv s) (hl : Layered s)
     (hc : CompactOk s cd) (hnot : ¬ IsL0L0 s cd) (hs : s.compact cd d n now = some s') : Layered s' :=
   LL.compact_layered h hl hc hnot hs
+
+/-- `Layered` = `LayeredX` (recency across sources, L0 taken as one source) + L0 in age order -/
+theorem C14_layered_iff_X (s : Lsm) : Layered s ↔ LayeredX s ∧ LL.L0Aged s := LL.layered_iff_X s
+
+/-- (C) what EVERY well-formed compaction preserves, L0 → L0 included: recency across sources with
+    L0 taken as one source. (L0 → Lbase: under `TopsOldest`, automatic when L0 is in age order.)
+    Together with `KeyVerUnique` this is the invariant that suffices for the reads (C12). -/
+theorem C14_compact_layeredX {s s' : Lsm} {cd : CompactDef} {d n now : Nat} (h : LsmInv s) (hl : LayeredX s)
+    (hc : CompactOk s cd) (hto : IsL0Lbase s cd → TopsOldest s cd)
+    (hs : s.compact cd d n now = some s') : LayeredX s' :=
+  LL.compact_layeredX h hl hc hto hs
+
+theorem C14_flush_layeredX {s : Lsm} (hl : LayeredX s) (himm : s.imm = []) (id : Nat) : LayeredX (s.flush id) :=
+  LL.flush_layeredX hl himm id
+
+theorem C14_put_layeredX {s : Lsm} (hl : LayeredX s) {e : Ent}
+    (hnew : ∀ x ∈ s.allEntries, x.key = e.key → x.ver ≤ e.ver) : LayeredX (s.putEnt e) :=
+  LL.put_layeredX hl hnew
+
+/-- uniqueness of internal keys is preserved by every step (entries are only moved or dropped;
+    a commit brings a fresh, larger version) -/
+theorem C14_compact_keyVerUnique {s s' : Lsm} {cd : CompactDef} {d n now : Nat} (h : LsmInv s)
+    (hu : KeyVerUnique s) (hc : CompactOk s cd) (hs : s.compact cd d n now = some s') : KeyVerUnique s' :=
+  LL.compact_keyVerUnique h hu hc hs
+
+theorem C14_flush_keyVerUnique {s : Lsm} (hu : KeyVerUnique s) (id : Nat) : KeyVerUnique (s.flush id) :=
+  LL.flush_keyVerUnique hu id
+
+theorem C14_put_keyVerUnique {s : Lsm} (hu : KeyVerUnique s) {e : Ent}
+    (hnew : ∀ x ∈ s.allEntries, x.key = e.key → x.ver < e.ver) : KeyVerUnique (s.putEnt e) :=
+  LL.put_keyVerUnique hu hnew
+
+def C14_l0l0State : Lsm :=
+  { mem := [], imm := [],
+    levels := [[{ ents := [⟨[1], 1, 0, 0, 0, [1]⟩] }, { ents := [⟨[1], 2, 0, 0, 0, [2]⟩] },
+                { ents := [⟨[1], 3, 0, 0, 0, [3]⟩] }], []] }
+def C14_l0l0Cd : CompactDef :=
+  { thisLevel := 0, nextLevel := 0, top := [0, 2], bot := [], outSizes := [2], dropPrefixes := [] }
+def C14_l0l0State' : Lsm :=
+  { mem := [], imm := [],
+    levels := [[{ ents := [⟨[1], 3, 0, 0, 0, [3]⟩, ⟨[1], 1, 0, 0, 0, [1]⟩] }, { ents := [⟨[1], 2, 0, 0, 0, [2]⟩] }], []] }
+
+/-- full `Layered` (L0 in age order) is NOT preserved by L0 → L0: merging the oldest and the newest
+    table leaves a table that is both older and newer than the one left out, so no order of L0 is
+    an age order; `LayeredX` and `KeyVerUnique` survive. -/
+theorem C14_L0L0_breaks_layered :
+    LsmInv C14_l0l0State ∧ VerBound C14_l0l0State ∧ Layered C14_l0l0State ∧ KeyVerUnique C14_l0l0State ∧
+      CompactOk C14_l0l0State C14_l0l0Cd ∧ IsL0L0 C14_l0l0State C14_l0l0Cd ∧
+      C14_l0l0State.compact C14_l0l0Cd 0 2 0 = some C14_l0l0State' ∧
+      ¬ Layered C14_l0l0State' ∧ LayeredX C14_l0l0State' ∧ KeyVerUnique C14_l0l0State' := by
+  refine ⟨by decide, by decide, by decide, by decide, by decide, by decide, by lsm_decide, by decide, by decide,
+    by decide⟩
 
 /-- flushing keeps `Layered` (no immutable memtable: the only way the model's `flush` is used) -/
 theorem C14_flush_layered {s : Lsm} (hl : Layered s) (himm : s.imm = []) (id : Nat) : Layered (s.flush id) :=
